@@ -13,13 +13,13 @@ ID = "C17"
 
 META = {
     "rule": "object pool (plain-data descriptors -> real objects): poses of all 4 types incl. cross-type members with equal numbers, vertices, odometry / landmark / custom edges "
-    "(pose, ndarray and scalar estimates; with/without offset id), graphs of size 0..3 differing in size, type, order. (a) every ordered same-family pair x tol in {1e-6, 1e-3}: "
+    "(pose, ndarray and scalar estimates; with/without offset id), graphs of size 0..3 differing in size, type, order, a 9-pose trajectory with one pose near the origin and the others kilometres away, ids of 2e5 / 5e6 / 2^40 that differ by 1 or 2. (a) every ordered same-family pair x tol in {1e-6, 1e-3}: "
     "never raises, True iff descriptors are identical, False for every discrete or O(1) numeric difference; (b) every object x every single numeric component x perturbation "
     "tol*10^k*(norm used), k in -12..-2 => True, k in {2,3} => False, both signs, both directions; (c) every discrete difference. "
     "non-trivial = the two descriptors differ",
     "assumptions": ["pool of well-formed objects as stated; SE(2) angles of the pool stay away from the +-pi seam (equals is numeric on components)", "cross-family pairs (pose vs edge) are outside the property"],
     "required_classes": ["pair:pose", "pair:vertex", "pair:edge", "pair:graph", "cross_type", "perturb:sub", "perturb:super", "discrete"],
-    "bounds": {"quick": "pool: 18 poses, 14 vertices, 22 edges, 16 graphs; all ordered pairs x 2 tolerances; perturbation exponents -12..-2, 2, 3", "thorough": "same + tol 1e-9 and 1e-1, relative and absolute perturbation variants"},
+    "bounds": {"quick": "pool: 17 poses, 19 vertices, 37 edges, 20 graphs; all ordered pairs x 2 tolerances; perturbation exponents -12..-2, 2, 3", "thorough": "same + tol 1e-9 and 1e-1, relative and absolute perturbation variants"},
 }
 
 Q1 = [0.18257418583505536, -0.3651483716701107, 0.5477225575051661, 0.7302967433402214]
@@ -57,6 +57,9 @@ def vertex_pool():
             out.append({"id": vid, "pose": p})
     out.append({"id": -3, "pose": ps[6]})
     out.append({"id": 2**40, "pose": ps[6]})
+    # large ids that differ by 1 (ids are integers: no tolerance applies to them)
+    for vid in (200000, 200001, 5000000, 5000002, 2**40 + 1):
+        out.append({"id": vid, "pose": ps[6]})
     return out
 
 
@@ -100,6 +103,16 @@ def edge_pool():
         {"k": "vararity", "ids": [0, 1, 2], "om": _eye(2), "est": [0.5, -0.5]},
         {"k": "scalar", "ids": [0, 1], "om": _eye(1), "est": 1.5},
         {"k": "scalar", "ids": [0, 1], "om": _eye(1), "est": 0.0},
+        # large ids that differ by 1 or 2 (ids are integers: no tolerance applies to them)
+        {"k": "odo", "ids": [200000, 200001], "om": _eye(3), "est": ps[6]},
+        {"k": "odo", "ids": [200000, 200002], "om": _eye(3), "est": ps[6]},
+        {"k": "odo", "ids": [200001, 200001], "om": _eye(3), "est": ps[6]},
+        {"k": "odo", "ids": [5000000, 5000001], "om": _eye(3), "est": ps[6]},
+        {"k": "odo", "ids": [5000000, 5000002], "om": _eye(3), "est": ps[6]},
+        {"k": "lm", "ids": [200000, 200001], "om": _eye(2), "est": ps[0], "off": ps[8], "off_id": 0},
+        {"k": "lm", "ids": [200000, 200002], "om": _eye(2), "est": ps[0], "off": ps[8], "off_id": 0},
+        {"k": "lm", "ids": [0, 1], "om": _eye(2), "est": ps[0], "off": ps[8], "off_id": 200000},
+        {"k": "lm", "ids": [0, 1], "om": _eye(2), "est": ps[0], "off": ps[8], "off_id": 200001},
     ]
 
 
@@ -134,6 +147,11 @@ def graph_pool():
         {"v": [se3(0, 0), se3(1, 1), r3(2, 0)], "e": [lm3, odo3]},
         {"v": [se2(0, 0), se2(1, 1)], "e": [pr]},
         {"v": [se2(0, 0), se2(1, 1)], "e": [pr, odo2]},
+        # a long trajectory: one pose near the origin, the others kilometres away (every pose is compared on its own scale)
+        {"v": [{"id": 0, "pose": ["SE2", [0.5, 0.3, 0.1]]}] + [{"id": i, "pose": ["SE2", [1000.0 * i, -700.0 * i, 0.2 * i - 1.0]]} for i in range(1, 9)], "e": [odo2]},
+        # graphs whose ids are large and differ by 1 / 2
+        {"v": [se2(200000, 0), se2(200001, 1)], "e": [{"k": "odo", "ids": [200000, 200001], "om": _eye(3), "est": ps[7]}]},
+        {"v": [se2(200000, 0), se2(200002, 1)], "e": [{"k": "odo", "ids": [200000, 200002], "om": _eye(3), "est": ps[7]}]},
     ]
 
 
